@@ -18,12 +18,23 @@ Proved:
 * `error_only_before_completion`: eval-up-to reports an error only if the run without the
   request fails with the same error at the same step, before the node completes.
 
-NOT proved (the `mark_used_preserves` half of DESIGN §7 C27): that marking the observed node
-`value_is_used` (`EvalUpTo.markUsed`, transcribed from `set_observed_expr_value_used`) changes the
-run of the unmarked program only by the extra value pushed at each completion of the node. It
-needs a simulation relation through every arm of `dispatch` (entries of the marked node in the
-pending stack and inside closure values); this half is covered by the direct oracle only
-(eval-up-to vs the `dbg`-free instrumented run of the UNMARKED program, harness/c27.py).
+`mark_used_preserves` (DESIGN §7 C27) is proved only LOCALLY, for the observed node's own steps
+(`…_partial` theorems below), for node kinds `EvalUpTo.Simple` (literals, variables, closures, operators,
+`let`, assignment, update, list and tuple literals — the kinds for which `set_observed_expr_value_used`
+changes one flag and nothing below it):
+* `mark_used_pending_partial`: before its completion the marked node does what the unmarked node
+  does, except that its own pending entries carry the flag (`unflagD`);
+* `mark_used_completion_partial`: at its completion the marked node leaves exactly the frame the
+  unmarked node leaves plus ONE extra value on top; errors and panics are the same;
+* `marked_stop_reports_pushed_value_partial`: that extra value is what eval-up-to reports (`fires`).
+MISSING for the full statement: (1) that the steps BETWEEN the node's own steps are unaffected by the
+flag carried by the node's pending entry — every dispatch arm only pushes on the entry stack, except
+`break` / `continue` / `return`, which scan or clear it (`break` reads a loop's flag) — i.e. a
+simulation through every arm of `dispatch`; (2) `if` / `match` (the flags of the branch results are
+recomputed), loops (the value is pushed one step before completion), calls (the flag travels into
+the callee frame as `callerUses`), `return` / `break` / `continue`. For these the property rests on
+the direct oracle (eval-up-to vs the instrumented run of the UNMARKED program, harness/c27.py) and on
+the flag-by-flag / tick-by-tick correspondence of `EvalUpTo.markUsed` with the real tool.
 -/
 
 set_option linter.unusedVariables false
@@ -178,6 +189,44 @@ theorem error_only_before_completion (d : Program → Frame → St → Expr → 
   · have : j = k := by omega
     subst this
     rw [hc] at hsj; cases hsj; exact hnf
+
+/-- **Marking, before completion** (partial: the node's own steps only). A step of the marked
+node that does not complete it does what the unmarked node's step does; only the node's own pending
+entries differ, by the flag. -/
+theorem mark_used_pending_partial (p : Program) (f : Frame) (st : St) (e : Expr)
+    (hs : Simple e = true) (hd : doneSub st e = false) :
+    unflagD e.id (dispatch p f st (withUsed true e)) = unflagD e.id (dispatch p f st e) :=
+  simple_noncompleting p f st e hs hd
+
+/-- **Marking, at completion** (partial: the node's own steps only). The completing step of the
+marked node leaves the frame the unmarked node leaves, plus exactly one extra value; it fails
+(errors, panics) exactly when the unmarked node fails, in the same way. -/
+theorem mark_used_completion_partial (p : Program) (f : Frame) (st : St) (e : Expr)
+    (hs : Simple e = true) (hu : e.used = false) (hd : doneSub st e = true) :
+    ExtraPush (dispatch p f st e) (dispatch p f st (withUsed true e)) :=
+  simple_completion p f st e hs hu hd
+
+/-- **The reported value is the value the marking makes the node push.** If the step of the
+unmarked statement-position node succeeds leaving frame `f1`, the marked node leaves `f1` plus one
+value `v`, the stop test fires at this step, and `v` is what eval-up-to returns. -/
+theorem marked_stop_reports_pushed_value_partial (s : State) (f : Frame) (callers : List Frame) (st : St)
+    (e : Expr) (rest : List (St × Expr)) (f1 : Frame)
+    (hfr : s.frames = f :: callers) (hex : f.exprs = (st, withUsed true e) :: rest)
+    (hq : (s.interrupted || s.interruptAt.contains (s.ticks + 1)) = false)
+    (hl : limitReached s.tickLimit (s.ticks + 1) = false)
+    (hsl : limitExceeded s.stackLimit s.frames.length = false)
+    (hstop : s.stopAt = some e.id)
+    (hs : Simple e = true) (hu : e.used = false) (hd : doneSub st e = true)
+    (hplain : dispatch s.prog { f with exprs := rest } st e = .ok f1) :
+    ∃ v, dispatch s.prog { f with exprs := rest } st (withUsed true e) = .ok (f1.pushV v) ∧
+      fires dispatch s = some v ∧ ∃ s', stepWith dispatch s = .done s' v := by
+  obtain ⟨v, h1, h2⟩ := marked_stop_reports s f callers st e rest f1 hfr hex hq hl hsl hstop hs hu hd hplain
+  obtain ⟨s', h3, _⟩ := step_fires dispatch s v h2
+  exact ⟨v, h1, h2, s', h3⟩
+
+/-- The hypotheses are satisfiable: the statement `1 + 2` (value unused) in state E. -/
+example : Simple (.binop 3 false .add (.int 1 true 1) (.int 2 true 2)) = true ∧
+    doneSub .E (.binop 3 false .add (.int 1 true 1) (.int 2 true 2)) = true := ⟨rfl, rfl⟩
 
 /-- The statements apply to the evaluator model itself. -/
 theorem applies_to_machine_step (s : State) : stepWith dispatch s = step s := stepWith_dispatch s
